@@ -174,34 +174,75 @@ func ToGo(v *ref.V) reflect.Value {
 	case gen.KTime:
 		return reflect.ValueOf(v.Tm)
 	case gen.KList:
-		s := reflect.MakeSlice(GoType(v.T), len(v.L), len(v.L))
+		els := make([]reflect.Value, len(v.L))
+		uniform := true
 		for i, e := range v.L {
-			s.Index(i).Set(ToGo(e))
+			els[i] = ToGo(e)
+			if els[i].Type() != els[0].Type() {
+				uniform = false
+			}
+		}
+		// elements of one type whose Go shapes differ (objects written in different field orders)
+		// can only travel in an interface-typed slice
+		var s reflect.Value
+		switch {
+		case len(els) == 0:
+			s = reflect.MakeSlice(GoType(v.T), 0, 0)
+		case uniform:
+			s = reflect.MakeSlice(reflect.SliceOf(els[0].Type()), len(els), len(els))
+		default:
+			s = reflect.MakeSlice(reflect.TypeOf([]interface{}{}), len(els), len(els))
+		}
+		for i, e := range els {
+			s.Index(i).Set(e)
 		}
 		return s
 	case gen.KMap:
-		m := reflect.MakeMap(GoType(v.T))
+		vals := make([]reflect.Value, len(v.MV))
+		uniform := true
+		for i, e := range v.MV {
+			vals[i] = ToGo(e)
+			if vals[i].Type() != vals[0].Type() {
+				uniform = false
+			}
+		}
+		var m reflect.Value
+		switch {
+		case len(vals) == 0:
+			m = reflect.MakeMap(GoType(v.T))
+		case uniform:
+			m = reflect.MakeMap(reflect.MapOf(GoType(v.T.Key), vals[0].Type()))
+		default:
+			m = reflect.MakeMap(reflect.MapOf(GoType(v.T.Key), reflect.TypeOf((*interface{})(nil)).Elem()))
+		}
 		for i, k := range v.MK {
-			m.SetMapIndex(ToGo(k), ToGo(v.MV[i]))
+			m.SetMapIndex(ToGo(k), vals[i])
 		}
 		return m
 	case gen.KObj:
 		// the Go struct type follows the value's own field order
-		fs := make([]gen.FieldTy, len(v.OF))
+		fvals := make([]reflect.Value, len(v.OF))
+		sf := make([]reflect.StructField, len(v.OF))
 		for i, n := range v.OF {
-			fs[i] = gen.FieldTy{Name: n, T: v.OV[i].T}
+			fvals[i] = ToGo(v.OV[i])
+			tag := `yae:"` + n + `"`
+			if v.OV[i].T.K == gen.KMaybe {
+				tag = `yae:"` + n + `,maybe"`
+			}
+			sf[i] = reflect.StructField{Name: fmt.Sprintf("F%d", i), Type: fvals[i].Type(), Tag: reflect.StructTag(tag)}
 		}
-		st := reflect.New(GoType(gen.Obj(fs...))).Elem()
+		st := reflect.New(reflect.StructOf(sf)).Elem()
 		for i := range v.OF {
-			st.Field(i).Set(ToGo(v.OV[i]))
+			st.Field(i).Set(fvals[i])
 		}
 		return st
 	case gen.KMaybe:
-		p := reflect.New(GoType(v.T.El))
 		if v.P == nil {
 			return reflect.Zero(reflect.PointerTo(GoType(v.T.El)))
 		}
-		p.Elem().Set(ToGo(v.P))
+		pv := ToGo(v.P)
+		p := reflect.New(pv.Type())
+		p.Elem().Set(pv)
 		return p
 	}
 	panic("ToGo: " + v.T.String())
